@@ -276,50 +276,73 @@ func (p *Prog) readsMirrorUnguarded(fi *FuncInfo, depth int, seen map[string]boo
 	}
 	seen[fi.Key] = true
 	info := fi.Pkg.TypesInfo
-	var at ast.Node
-	via := ""
-	var walk func(n ast.Node, guarded bool)
-	walk = func(n ast.Node, guarded bool) {
-		ast.Inspect(n, func(x ast.Node) bool {
-			if at != nil || x == nil {
-				return false
-			}
-			switch s := x.(type) {
-			case *ast.IfStmt:
-				g := guarded
-				ast.Inspect(s.Cond, func(y ast.Node) bool {
-					if sel, ok := y.(*ast.SelectorExpr); ok && sel.Sel.Name == fileFields.Flag {
-						g = true
-					}
-					return true
-				})
-				if s.Init != nil {
-					walk(s.Init, guarded)
-				}
-				walk(s.Cond, guarded)
-				walk(s.Body, g)
-				if s.Else != nil {
-					walk(s.Else, guarded)
-				}
-				return false
+	f := p.FlatOf(fi)
+	mentionsFlag := func(n ast.Node, locals map[types.Object]bool) bool {
+		found := false
+		ast.Inspect(n, func(y ast.Node) bool {
+			switch x := y.(type) {
 			case *ast.SelectorExpr:
-				if s.Sel.Name == fileFields.Arr && !guarded {
-					if fv, ok := info.Uses[s.Sel].(*types.Var); ok && fv.IsField() && shortPath(fv.Pkg().Path()) == "internal/model/core" {
-						at, via = s, fi.Key
-					}
+				if x.Sel.Name == fileFields.Flag {
+					found = true
 				}
-			case *ast.CallExpr:
-				if callee := p.staticCallee(fi.Pkg, s); callee != nil && shortPath(callee.Pkg.PkgPath) == "internal/model/core" {
-					if n, v := p.readsMirrorUnguarded(callee, depth+1, seen); n != nil {
-						at, via = n, v
+			case *ast.Ident:
+				if locals[objOf(info, x)] {
+					found = true
+				}
+			}
+			return !found
+		})
+		return found
+	}
+	// locals that hold the flag (indexed := !f.withoutSearch)
+	locals := map[types.Object]bool{}
+	for _, n := range f.Nodes {
+		if as, ok := n.Ast.(*ast.AssignStmt); ok && len(as.Lhs) == len(as.Rhs) {
+			for i, rhs := range as.Rhs {
+				if mentionsFlag(rhs, nil) {
+					if o := objOf(info, as.Lhs[i]); o != nil {
+						locals[o] = true
 					}
 				}
 			}
-			return true
-		})
+		}
 	}
-	walk(fi.Decl.Body, false)
-	return at, via
+	guards := map[int]bool{}
+	for _, n := range f.Nodes {
+		if n.IsCond && mentionsFlag(n.Ast, locals) {
+			guards[n.ID] = true
+		}
+	}
+	for _, n := range f.Nodes {
+		if n.Ast == nil {
+			continue
+		}
+		if _, isDefer := n.Ast.(*ast.DeferStmt); isDefer {
+			continue
+		}
+		var hit ast.Node
+		ast.Inspect(n.Ast, func(x ast.Node) bool {
+			if sel, ok := x.(*ast.SelectorExpr); ok && sel.Sel.Name == fileFields.Arr {
+				if fv, ok := info.Uses[sel.Sel].(*types.Var); ok && fv.IsField() && shortPath(fv.Pkg().Path()) == "internal/model/core" {
+					hit = sel
+				}
+			}
+			return hit == nil
+		})
+		// a test of the flag on every path to the access (the guard of the maintenance code), or the access
+		// sits in the very condition that tests it
+		if hit != nil && !guards[n.ID] && !f.MustPrecede(guards, n.ID) {
+			return hit, fi.Key
+		}
+		for _, c := range callsIn(n.Ast, false) {
+			if callee := p.staticCallee(fi.Pkg, c); callee != nil && shortPath(callee.Pkg.PkgPath) == "internal/model/core" {
+				if at, v := p.readsMirrorUnguarded(callee, depth+1, seen); at != nil {
+					return at, v
+				}
+			}
+		}
+	}
+	return nil, ""
 }
 
 // c09DeleteKeepsTheBytes (seeded C09-I): removing a version's content is an unlink and nothing else. A reader that
@@ -813,17 +836,16 @@ func c13RegistryDeleteIsOneStep(p *Prog, r *Report, rule string) {
 	if fi == nil {
 		return
 	}
-	info := fi.Pkg.TypesInfo
 	recv := "r"
 	if fi.Decl.Recv != nil && len(fi.Decl.Recv.List[0].Names) == 1 {
 		recv = fi.Decl.Recv.List[0].Names[0].Name
 	}
 	var loads, dels, rels []*LockEvent
-	for _, ev := range p.DeepLockEvents(fi, nil, 1) {
+	for _, ev := range p.DeepLockEvents(fi, nil, 2) {
 		switch {
-		case ev.Kind == "call" && ev.Call != nil && ev.Fn == fi && storageCall(info, ev.Call, "Load"):
-			loads = append(loads, ev)
-		case ev.Kind == "call" && ev.Call != nil && ev.Fn == fi && storageCall(info, ev.Call, "Delete"):
+		case ev.Kind == "call" && ev.Call != nil && ev.Fn != nil && ev.Fn.Pkg == fi.Pkg && storageCall(ev.Fn.Pkg.TypesInfo, ev.Call, "Load"):
+			loads = append(loads, ev) // in Delete itself or in a helper of the registry it calls (registered(id))
+		case ev.Kind == "call" && ev.Call != nil && ev.Fn != nil && ev.Fn.Pkg == fi.Pkg && storageCall(ev.Fn.Pkg.TypesInfo, ev.Call, "Delete"):
 			dels = append(dels, ev)
 		case ev.Kind == "release" && ev.Ctx == "" && ev.Fn == fi:
 			rels = append(rels, ev)
@@ -836,7 +858,7 @@ func c13RegistryDeleteIsOneStep(p *Prog, r *Report, rule string) {
 	}
 	wHeld := func(hs []Held) bool {
 		for _, h := range hs {
-			if h.Mode == "W" && strings.HasPrefix(h.Path, recv+".") {
+			if h.Mode == "W" && (strings.HasPrefix(h.Path, recv+".") || strings.Contains(h.Class, "repository/transaction.")) {
 				return true
 			}
 		}
@@ -1473,7 +1495,11 @@ func c14DrainLoopsPopEverything(p *Prog, r *Report, rule string) {
 			continue
 		}
 		info := fi.Pkg.TypesInfo
-		for _, loop := range forLoops(fi.Decl.Body) {
+		var loops []*ast.ForStmt
+		for _, body := range p.deepBodies(fi) {
+			loops = append(loops, forLoops(body)...)
+		}
+		for _, loop := range loops {
 			// the list the loop pops from
 			popped := ""
 			var scope []ast.Node
@@ -1497,10 +1523,14 @@ func c14DrainLoopsPopEverything(p *Prog, r *Report, rule string) {
 					return true
 				})
 			}
-			if popped == "" || loop.Cond == nil {
+			if popped == "" {
 				continue
 			}
 			n++
+			if loop.Cond == nil {
+				r.Hold(rule, fmt.Sprintf("%s#drain-loop/%d pops until the list is empty", k, n), p.pos(loop), "the loop leaves through a test in its body")
+				continue
+			}
 			cons := fmt.Sprintf("%s#drain-loop/%d pops until the list is empty", k, n)
 			// counted: i < <popped>.M() with i stepped in Post
 			counted := false
